@@ -14,10 +14,16 @@ def poly_to_expr(d, subs=None):
     subs = subs or {}
     terms = []
     for co, mon in d:
-        t = P.const(Fraction(co))
+        t = None
         for x, k in mon:
             base = P.const(subs[x]) if x in subs else P.var(x)
-            t = ("mul", t, base if k == 1 else ("pow", base, k))
+            f = base if k == 1 else ("pow", base, k)
+            t = f if t is None else ("mul", t, f)
+        c = Fraction(co)
+        if t is None:
+            t = P.const(c)
+        elif c != 1:
+            t = ("mul", P.const(c), t)
         terms.append(t)
     if not terms:
         return P.const(0)
@@ -98,3 +104,29 @@ def numeric_types(types):
 
 FLAT_HEADER = ("From Coq Require Import List String QArith Qcanon ZArith.\n"
                "From Polar Require Import Qcx Dist Syntax Sem Types.\nImport ListNotations.\nOpen Scope string_scope.\n")
+
+
+def system_coq(gr, inst):
+    """(ms, A, v) Coq terms of one Polar-built system instance; the constant column of an
+    inhomogeneous system is the empty monomial"""
+    ms = []
+    for d in gr["monomial_dumps"]:
+        if len(d) != 1 or Fraction(d[0][0]) != 1:
+            raise NotModelled(f"system monomial {d}")
+        ms.append({x: k for x, k in d[0][1]})
+    if gr.get("is_inhomogeneous"):
+        ms.append({})
+    A = [[Fraction(x) for x in row] for row in inst["A"]]
+    v = [Fraction(x) for x in inst["v"]]
+    if len(A) != len(ms) or len(v) != len(ms):
+        raise NotModelled("system shape")
+    ms_c = P.lst([P.mono_coq(m) for m in ms])
+    A_c = P.lst([P.lst([P.q_coq(x) for x in row]) for row in A])
+    v_c = P.lst([P.q_coq(x) for x in v])
+    return ms, ms_c, A_c, v_c
+
+
+WP_HEADER = ("From Coq Require Import List String QArith Qcanon ZArith.\n"
+             "From Polar Require Import Qcx CRing ExpPoly ClosedForm Dist Syntax Sem Types Poly Pipeline Wp Search.\n"
+             "Import ListNotations.\nOpen Scope string_scope.\n"
+             "Definition cm0 : string -> list Qc -> nat -> Qc := fun _ _ _ => 0%Qc.\n")
